@@ -448,22 +448,18 @@ class Context:
         return ok, outputs, failed
 
     def coq_deps(self, target_v):
-        """Transitive project-local dependencies (relative .v paths) of a file."""
+        """Transitive project-local dependencies (relative .v paths) of a file,
+        from coqdep's graph (so every `From Celer Require Import A B.` form is followed)."""
+        graph = self._coq_depgraph()
         seen = []
-        todo = [target_v]
+        todo = [os.path.normpath(target_v[:-2] + ".vo")]
         while todo:
-            f = todo.pop()
-            if f in seen:
+            t = todo.pop()
+            if t in seen:
                 continue
-            seen.append(f)
-            p = os.path.join(COQDIR, f)
-            if not os.path.exists(p):
-                continue
-            for m in re.finditer(r"(?:From\s+Celer\s+)?Require\s+(?:Import\s+|Export\s+)?([^.]*(?:\.[A-Za-z_][\w.]*)*)\.", open(p).read()):
-                for name in m.group(1).split():
-                    if name.startswith("Celer."):
-                        todo.append(name[len("Celer."):].replace(".", "/") + ".v")
-        return seen
+            seen.append(t)
+            todo += graph.get(t, [])
+        return [t[:-1] for t in seen]
 
     def coq_prove(self, props_file, timeout=1500):
         """Build coq/<props_file> (a Properties_Cxx.v) and everything it needs.
